@@ -1,1 +1,2 @@
 import Props.C09
+import Props.C13
